@@ -22,7 +22,8 @@ RULE = ("(lattice, enumerated completely in both tiers) input kind {python float
         "after mygrad.random.seed(s) against numpy.random after numpy.random.seed(s) (values, shape, dtype, constant flag, fresh memory). Non-trivial: the call returned; distinct = lattice cell / (routine, argument kinds).")
 ASSUMPTIONS = ["np.asarray / np.array on the same input decide dtype, shape and whether memory can be shared",
                "inheritance of the constant flag by astensor(t, dtype=other) is recorded, not judged (the statement does not settle it)"]
-KINDS = ["pyfloat", "pyint", "pybool", "list", "nested", "arrC", "arrF", "arrview", "arrRO", "arr32", "arrint", "t_leaf", "t_const", "t_int",
+BUFKINDS = ["bufarray", "memview", "obj_array", "obj_iface"]   # objects that export their buffer without being ndarrays / tensors
+KINDS = ["pyfloat", "pyint", "pybool", "list", "nested", "arrC", "arrF", "arrview", "arrRO", "arr32", "arrint", "bufarray", "memview", "obj_array", "obj_iface", "t_leaf", "t_const", "t_int",
          "t_graph", "t_grad", "t_view"]
 DTYPES = [None, "same", "float32", "float64", "int64", "bool", "complex64", "object", "str", "datetime64[s]"]
 CONSTS = [None, True, False]
@@ -64,7 +65,7 @@ def gen_case(rng, cfg, idx):
     if r in ("zeros_like", "ones_like", "empty_like", "full_like"):
         a["other_dtype"] = rng.choice(["float64", "float32", "int64"])
         a["other_kind"] = rng.choice(["array", "tensor", "list"])
-        a["newshape"] = rng.choice([None, None, [6], [2, 3]])
+        a["newshape"] = rng.choice([None, None, [6], [2, 3], [], 0, [0], 4, [1, 0]])   # incl. the falsy overrides () / 0
     if r == "arange":
         a["args"] = rng.choice([[5], [2, 7], [1, 10, 3], [0.0, 1.0, 0.25], [5.0], [-3, 3]])
     if r in ("linspace", "logspace", "geomspace"):
@@ -109,6 +110,26 @@ def make_input(kind):
         return base.astype(np.float32)
     if kind == "arrint":
         return np.arange(6).reshape(2, 3)
+    if kind == "bufarray":
+        import array
+        return array.array("d", [1.0, 2.0, 3.0])
+    if kind == "memview":
+        return memoryview(base.copy())
+    if kind == "obj_array":
+        class WithArray:
+            def __init__(self, a):
+                self.a = a
+
+            def __array__(self, dtype=None, copy=None):
+                out = self.a if dtype is None or np.dtype(dtype) == self.a.dtype else self.a.astype(dtype)
+                return out.copy() if (copy and out is self.a) else out    # (the NumPy 2 protocol: the exporter honours copy=True)
+        return WithArray(base.copy())
+    if kind == "obj_iface":
+        class WithInterface:
+            def __init__(self, a):
+                self.a = a
+                self.__array_interface__ = a.__array_interface__
+        return WithInterface(base.copy())
     if kind == "t_leaf":
         return mg.tensor(base)
     if kind == "t_const":
@@ -205,6 +226,8 @@ def run_cell(cell, cnt, viol):
         if odata.dtype != want.dtype or odata.shape != want.shape or not np.array_equal(odata, want, equal_nan=True):
             viol.append({"monitor": "model", "mech": f"dtype-shape-value:{fn}", "msg": f"{tag}: got {odata.dtype} {odata.shape}, NumPy gives {want.dtype} {want.shape}"})
     nocopy = fn in ("astensor", "asarray") or copy is False
+    if kind in BUFKINDS:
+        xdata = np.asarray(x)     # a window onto the very buffer the object exports
     if isinstance(xdata, np.ndarray) and xdata.size:
         np_alias = np.shares_memory(np.asarray(xdata, dtype=dt), xdata)
         shares = np.shares_memory(odata, xdata)
@@ -317,7 +340,7 @@ def run_create(a, cnt, viol):
         if r == "full_like":
             pos_mg.append(a["fill"]); pos_np.append(a["fill"])
         if a.get("newshape") is not None:
-            kw_mg["shape"] = kw_np["shape"] = tuple(a["newshape"])
+            kw_mg["shape"] = kw_np["shape"] = a["newshape"] if isinstance(a["newshape"], int) else tuple(a["newshape"])
     elif r == "arange":
         pos = list(a["args"])
     elif r in ("linspace", "logspace", "geomspace"):
@@ -433,5 +456,5 @@ def run_case(case):
     else:
         run_create(case["args"], cnt, viol)
         a = case["args"]
-        sig = "create:" + repr((a["routine"], a["dtype"], str(a["shape"]), a.get("other_kind"), a.get("other_dtype"), a.get("num"), a.get("newshape") is not None))
+        sig = "create:" + repr((a["routine"], a["dtype"], str(a["shape"]), a.get("other_kind"), a.get("other_dtype"), a.get("num"), str(a.get("newshape"))))
     return {"viol": viol[:3], "counters": cnt, "sets": {"kinds": [case["kind"]]}, "sig": sig, "nontrivial": True}
